@@ -5,8 +5,9 @@ there - the standing proof that the check is not vacuous."""
 
 PLAN = {
     "C01": dict(
-        quick=["lit_finish_exit", "lit_foreign_finish", "lit_child_other", "lit_local_scope", "par4", ("over5_d", dict(cap=800))],
-        thorough=["lit_finish_exit", "lit_foreign_finish", "lit_child_other", "lit_local_scope", "lit_attach_other", "par4", "par5",
+        quick=[("lit_finish_exit", dict(shuffle=8)), ("lit_foreign_finish", dict(cap=1000, shuffle=6)), ("lit_child_other", dict(cap=1000, shuffle=6)), "lit_local_scope",
+               ("lit_spawn_sweep", dict(cap=1000, shuffle=6)), ("par4", dict(shuffle=4)), ("over5_d", dict(cap=600))],
+        thorough=["lit_finish_exit", "lit_foreign_finish", "lit_child_other", "lit_local_scope", "lit_attach_other", "lit_spawn_sweep", "par4", "par5",
                   "over5_d", "tree5", ("sim_par3", dict(cap=6000))],
         vacuity=[("lit_finish_exit", ["FixRecv"])],
     ),
@@ -15,13 +16,14 @@ PLAN = {
         thorough=["tree4", "tree5", ("tree6", dict(cap=20000, timeout=2400)), ("sim_tree", dict(cap=6000))],
     ),
     "C03": dict(
-        quick=["lit_finish_exit_c", "lit_foreign_finish_c", "lit_child_other_c", "par4_c", ("att4_c", dict(cap=800))],
-        thorough=["lit_finish_exit_c", "lit_foreign_finish_c", "lit_child_other_c", "par4_c", "par5_c", "att4_c", ("sim_par3_c", dict(cap=6000))],
+        quick=[("lit_finish_exit_c", dict(shuffle=8)), ("lit_foreign_finish_c", dict(cap=1000, shuffle=6)), ("lit_child_other_c", dict(cap=1000, shuffle=6)), ("par4_c", dict(shuffle=4)),
+               ("att4_c", dict(cap=800)), ("tree4_c", dict(cap=1200))],
+        thorough=["lit_finish_exit_c", "lit_foreign_finish_c", "lit_child_other_c", "par4_c", "par5_c", "att4_c", "tree4_c", ("sim_par3_c", dict(cap=6000))],
         vacuity=[("lit_finish_exit_c", ["FixRecv"])],
     ),
     "C04": dict(
-        quick=["lit_overflow_cancel", "cancel4_c", "cancel4_d", ("over5_c", dict(cap=1200))],
-        thorough=["lit_overflow_cancel", "cancel4_c", "cancel5_c", "cancel4_d", "over5_c", "over6_c"],
+        quick=[("lit_overflow_cancel", dict(cap=1000, shuffle=6)), "cancel4_c", "cancel4_d", ("over5_c", dict(cap=1000, shuffle=3)), ("multi_cancel_c", dict(cap=1200))],
+        thorough=["lit_overflow_cancel", "cancel4_c", "cancel5_c", "cancel4_d", "over5_c", "over6_c", "multi_cancel_c"],
         vacuity=[("lit_overflow_cancel", ["FixFifo"]), ("cancel4_d", ["FixCancelDefault"])],
     ),
     "C05": dict(
@@ -39,19 +41,20 @@ PLAN = {
         vacuity=[("hostile4", ["FixEmptyToken"]), ("hostile4", ["FixReentrant"]), ("hostile4", ["FixStackFull"])],
     ),
     "C08": dict(
-        quick=["lit_finish_exit", "lit_foreign_finish", "par4", ("over5_d", dict(cap=800)), ("cancel4_c", dict(cap=400))],
+        quick=["lit_finish_exit", "lit_foreign_finish", ("lit_spawn_sweep", dict(cap=800)), "par4", ("over5_d", dict(cap=800)), ("cancel4_c", dict(cap=400))],
         thorough=["lit_finish_exit", "lit_foreign_finish", "par4", "par5", "over5_d", "cancel4_c", ("sim_par3", dict(cap=6000))],
         vacuity=[("lit_finish_exit", ["FixRecv"]), ("over5_d", ["FixFifo"])],
     ),
     "C09": dict(
-        quick=[("over5_d", dict(cap=1000)), ("over5_c", dict(cap=1000)), ("lit_overflow_finish", dict(cap=600)), ("lit_overflow_finish_c", dict(cap=600)),
-               ("qlimit5", dict(cap=800))],
+        quick=[("over5_d", dict(cap=800, shuffle=3)), ("over5_c", dict(cap=800, shuffle=3)), ("lit_overflow_cancel", dict(cap=500, shuffle=6)),
+               ("lit_overflow_finish", dict(cap=500, shuffle=4)), ("lit_overflow_finish_c", dict(cap=500, shuffle=4)),
+               ("qlimit5", dict(cap=800)), ("scope_q1", dict(cap=1500))],
         thorough=["over5_d", "over5_c", "over6_c", "lit_overflow_finish", "lit_overflow_finish_c", "lit_overflow_cancel", "qlimit5"],
         vacuity=[("over5_d", ["FixForceStart"]), ("over5_d", ["FixFifo"])],
     ),
     "C10": dict(
-        quick=[("scope5", dict(cap=2500))],
-        thorough=["scope5", ("scope6", dict(cap=20000))],
+        quick=[("scope5", dict(cap=2000)), ("scope_q1", dict(cap=3000)), ("scope_qfull", dict(cap=800))],
+        thorough=["scope5", ("scope6", dict(cap=20000)), "scope_q1", "scope_qfull"],
     ),
     "C11": dict(
         quick=[("ctx4", dict(cap=2500))],
